@@ -120,6 +120,30 @@ def quiet():
     return contextlib.redirect_stdout(io.StringIO())
 
 
+class DecoderTimeout(Exception):
+    """a decoder call did not return (reported as a failing input, never a harness hang)"""
+
+
+@contextlib.contextmanager
+def time_limit(seconds=20):
+    """watchdog around implementation calls (main thread, Unix)"""
+    import signal
+
+    def handler(signum, frame):
+        raise DecoderTimeout(f'no answer within {seconds} s')
+    try:
+        old = signal.signal(signal.SIGALRM, handler)
+    except ValueError:       # not in the main thread: no watchdog
+        yield
+        return
+    signal.setitimer(signal.ITIMER_REAL, seconds)
+    try:
+        yield
+    finally:
+        signal.setitimer(signal.ITIMER_REAL, 0)
+        signal.signal(signal.SIGALRM, old)
+
+
 # ------------------------------------------------------------------ canonical text
 
 def frac(x, maxden=1 << 20) -> Optional[Fraction]:
@@ -339,6 +363,21 @@ def table_text(events) -> str:
     return ';'.join(ent) if ent else '-'
 
 
+TIMED_OUT = set()     # decoders that hung once in this run: not called again (bounds the run time)
+
+
+def bounded(check):
+    """wrap a check_case so that after one hang of a decoder its other cases are skipped"""
+    def run(case):
+        if case.get('decoder') in TIMED_OUT:
+            return None
+        msg = check(case)
+        if msg and 'DecoderTimeout' in msg:
+            TIMED_OUT.add(case.get('decoder'))
+        return msg
+    return run
+
+
 ERRMAP = {'ValueError': 'ERR ValueError', 'IndexError': 'ERR IndexError', 'AttributeError': 'ERR AttributeError'}
 
 
@@ -350,13 +389,17 @@ def run_history(dec, rec: Recorder, syndromes, check_inputs=True):
         i0 = len(rec.events)
         s_before = np.array(s).copy()
         try:
-            with quiet():
+            with quiet(), time_limit():
                 c = dec.decode(s)
             res = ivec(c)
             results.append(np.array(c).copy())
         except Exception as e:  # noqa: BLE001
             res = ERRMAP.get(type(e).__name__, f'EXC:{type(e).__name__}')
             results.append(None)
+            if isinstance(e, DecoderTimeout):
+                TIMED_OUT.add(type(dec).__name__)
+                texts.append('-=>' + res)
+                break
         if check_inputs and not (np.asarray(s).shape == s_before.shape and np.array_equal(np.asarray(s), s_before)):
             res += ' INPUT-MODIFIED'
         evs = rec.events[i0:]
@@ -405,7 +448,9 @@ def decoder_case(s: Stream, spec: Dict[str, Any], syndromes, tag):
             ctor_err = None
         except Exception as e:  # noqa: BLE001
             ctor_err = ERRMAP.get(type(e).__name__, f'EXC:{type(e).__name__}')
-        if ctor_err is None:
+        if ctor_err is None and dname in TIMED_OUT:
+            impl, results = 'skipped: this decoder did not return on an earlier input', []
+        elif ctor_err is None:
             texts, results = run_history(dec, rec, syndromes)
             impl = ' || '.join(texts)
         else:
@@ -621,7 +666,7 @@ def check_case(case):
         e = error_from(n, xs, zs)
         s = np.asarray(code.measure_syndrome(e))
         try:
-            with quiet():
+            with quiet(), time_limit():
                 c = dec.decode(s.copy())
         except Exception as ex:  # noqa: BLE001
             return f'decode raised {type(ex).__name__}: {str(ex)[:120]} on error x={xs} z={zs}'
@@ -730,13 +775,16 @@ def _rank(code):
 
 def shrink(case):
     """smallest failing prefix / single error of a failing case"""
-    if check_case(case) is None:
+    hung = case.get('decoder') in TIMED_OUT
+    if not hung and check_case(case) is None:
         return case
     errs = case['errors']
-    for e in errs:
+    for e in (errs[:3] if hung else errs):
         c1 = dict(case, errors=[e])
         if check_case(c1) is not None:
             return c1
+    if hung:
+        return case
     for i in range(1, len(errs) + 1):
         c1 = dict(case, errors=errs[:i])
         if check_case(c1) is not None:
@@ -759,7 +807,8 @@ def match_key(c):
 def oracle(ctx, deep=False, broken=None):
     cases = oracle_cases(ctx, deep)
     n_eval = sum(len(c['errors']) for c in cases)
-    fails = first_failures(cases, check_case, key=match_key)
+    TIMED_OUT.clear()
+    fails = first_failures(cases, bounded(check_case), key=match_key)
     for f in fails:
         f['input'] = shrink(f['input'])
         f['observed'] = check_case(f['input']) or f['observed']
